@@ -160,8 +160,13 @@ def judge(w, spec, plan, opts, mode, V, C, truth_mod):
         C('name_lists_checked')
         wantF = sorted(n for d in T.layers.values() for n in d['F'] + d['U'])
         wantE = sorted(n for d in T.layers.values() for n in d['E'])
-        gotF = sorted(info['failures_list'] or [])
-        gotE_all = list(info['errors_list'] or [])
+        # (white space is compared squashed: a layer subprocess reports its
+        # names on one line each)
+        sq = lambda n: ' '.join(n.split())  # noqa
+        wantF = sorted(sq(n) for n in wantF)
+        wantE = sorted(sq(n) for n in wantE)
+        gotF = sorted(sq(n) for n in info['failures_list'] or [])
+        gotE_all = [sq(n) for n in info['errors_list'] or []]
         gotE = sorted(n for n in gotE_all if not n.startswith('Layer: '))
         gotL = [n for n in gotE_all if n.startswith('Layer: ')]
         if gotF != wantF:
@@ -270,6 +275,22 @@ def run_case(case):
     spec = gen.fault_world(rng, prefix, nlayers=(1, 3), tests=(1, 4),
                            p_bad=0.35, p_import_fault=0.12)
     plan = gen.layer_fault_plan(rng, spec, p_su=0.08, p_td=0.1)
+    # names and sub-test messages with characters that str.splitlines()
+    # takes for line boundaries although they are no line feeds (vertical
+    # tab, form feed, the separators FS/GS/RS, NEL, U+2028, U+2029): one
+    # name, one line of the name lists, in every mode
+    nhostile = 0
+    if rng.random() < 0.2:
+        for tid, ts, layer, lvl, m, node in vworld.iter_tests(spec):
+            if ts['kind'] not in ('pass', 'skip_deco') and \
+                    rng.random() < 0.6:
+                sep = rng.choice(['\x0b', '\x0c', '\x1c', '\x1d', '\x1e',
+                                  '\x85', '\u2028', '\u2029'])
+                if ts['kind'] == 'subtests' and rng.random() < 0.5:
+                    ts['submsg'] = 'page one%spage two' % sep
+                else:
+                    ts['name'] = '%s_a%sb' % (ts['name'], sep)
+                nhostile += 1
     ncount = 0
     if rng.random() < 0.2:
         # test case objects that stand for several cases each
@@ -317,6 +338,7 @@ def run_case(case):
             return {'viol': viol, 'evals': 1, 'counters': counters}
         viol.extend(ws.cviol[:2])
         C('multi_case_test_objects', ncount)
+        C('names_with_unicode_line_boundaries', nhostile)
         T, nran = judge(ws, spec, plan, opts, 'seq', V, C, truth)
         multi = sum(1 for tid, (ts, l, m, n) in T.tests.items()
                     if sum(vworld.outcome_events(ts)) > 1)
